@@ -176,7 +176,22 @@ impl SchedSpec for ExecSpec {
         Scenario {
             threads: submitter_threads,
             external_threads: self.workers,
-            identify: Some(Box::new(move |site, a, _b| if site.starts_with("ws.worker.") || site.starts_with("ws.find.") { Some(nsub + a) } else { None })),
+            identify: Some(Box::new(move |site, a, _b| {
+                // worker loops are tokio tasks: a `ws.worker.*` / `ws.find.*` point carries the worker id; the lock scopes
+                // (`lock.acquire` / `lock.release`) that follow on the same OS thread before the next await belong to the same
+                // worker loop (a task cannot migrate inside one poll)
+                thread_local! {
+                    static LAST_WORKER: std::cell::Cell<Option<usize>> = const { std::cell::Cell::new(None) };
+                }
+                if site.starts_with("ws.worker.") || site.starts_with("ws.find.") {
+                    LAST_WORKER.with(|w| w.set(if site == "ws.worker.exit" { None } else { Some(nsub + a) }));
+                    Some(nsub + a)
+                } else if site.starts_with("lock.") {
+                    LAST_WORKER.with(|w| w.get())
+                } else {
+                    None
+                }
+            })),
             monitor: None,
             fingerprint: Some(fingerprint),
             after_spawn: Some(after_spawn),
@@ -331,6 +346,153 @@ impl SeqSpec for QueueSpec {
     }
 }
 
+// ------------------------------------------------------------------------------------------------
+// E3: WorkStealingQueue under the controlled scheduler (native threads: owner, thief, observer)
+
+#[derive(Clone, Copy, Debug)]
+enum CQ {
+    Push(u8, bool),
+    PopLocal,
+    Steal,
+    Balance,
+    Len,
+}
+
+struct ConcQueueSpec {
+    name: &'static str,
+    cap: usize,
+    /// tasks pushed (priority, stealable) before the threads start
+    prefill: Vec<(u8, bool)>,
+    threads: Vec<Vec<CQ>>,
+    bound_quick: usize,
+    bound_thorough: usize,
+}
+
+impl SchedSpec for ConcQueueSpec {
+    fn name(&self) -> String {
+        self.name.to_string()
+    }
+    fn bound(&self, tier: Tier) -> usize {
+        tier.pick(self.bound_quick, self.bound_thorough)
+    }
+    fn describe(&self, _tier: Tier) -> String {
+        format!(
+            "{} native threads on ONE WorkStealingQueue(capacity {}) pre-filled with {:?} (priority, stealable); per-thread programs {:?}; schedule points before every acquisition of the local / steal queue lock (scheduler-visible lock scopes) and before every harness action; oracle: no task handed out twice, every task is inside the queue or was handed out exactly once, len() never exceeds the tasks inside, no deadlock; drained at quiescence",
+            self.threads.len(),
+            self.cap,
+            self.prefill,
+            self.threads
+        )
+    }
+    fn build(&self) -> Scenario {
+        let q = Arc::new(WorkStealingQueue::new(0, self.cap));
+        let log = Arc::new(Mutex::new(Vec::<u64>::new()));
+        // id -> state: 0 = inside the queue, 1 = handed out
+        let inside: Arc<Mutex<std::collections::BTreeMap<u64, (u8, bool, u8)>>> = Arc::new(Mutex::new(Default::default()));
+        let next_id = Arc::new(AtomicUsize::new(0));
+        for (prio, st) in &self.prefill {
+            let id = next_id.fetch_add(1, Ordering::SeqCst) as u64;
+            if q.push_local(Box::new(IdTask { id, prio: *prio, stealable: *st, log: log.clone() })).is_ok() {
+                inside.lock().unwrap().insert(id, (*prio, *st, 0));
+            }
+        }
+        let mut threads: Vec<Box<dyn FnOnce() + Send>> = Vec::new();
+        for (tid, prog) in self.threads.iter().cloned().enumerate() {
+            let (q, log, inside, next_id) = (q.clone(), log.clone(), inside.clone(), next_id.clone());
+            threads.push(Box::new(move || {
+                for (i, act) in prog.iter().enumerate() {
+                    sched::point("h.step", tid, i);
+                    match *act {
+                        CQ::Push(prio, st) => {
+                            let id = next_id.fetch_add(1, Ordering::SeqCst) as u64;
+                            // registered before the call: from the moment push_local links it another thread may take it
+                            inside.lock().unwrap().insert(id, (prio, st, 0));
+                            if q.push_local(Box::new(IdTask { id, prio, stealable: st, log: log.clone() })).is_err() {
+                                inside.lock().unwrap().remove(&id);
+                            }
+                        }
+                        CQ::PopLocal | CQ::Steal => {
+                            let got = if matches!(act, CQ::PopLocal) { q.pop_local() } else { q.steal() };
+                            if let Some(t) = got {
+                                let stealable = t.is_stealable();
+                                // executing logs the id (the log mutex is harness state, no schedule point inside)
+                                let id = {
+                                    let _ = t.execute();
+                                    *log.lock().unwrap().last().unwrap()
+                                };
+                                let mut m = inside.lock().unwrap();
+                                match m.get_mut(&id) {
+                                    Some(e) if e.2 == 0 => e.2 = 1,
+                                    Some(_) => {
+                                        drop(m);
+                                        sched::fail_now(Fail::new("task_returned_twice", format!("thread {tid}: {:?} handed out task {id}, which another call had already handed out", act)).with_class("concurrent"));
+                                    }
+                                    None => {
+                                        drop(m);
+                                        sched::fail_now(Fail::new("task_returned_twice", format!("thread {tid}: {:?} handed out task {id}, which was never accepted", act)).with_class("concurrent"));
+                                    }
+                                }
+                                if matches!(act, CQ::Steal) && !stealable {
+                                    sched::fail_now(Fail::new("stole_non_stealable", format!("thread {tid}: steal() returned task {id}, which is not stealable")).with_class("concurrent"));
+                                }
+                            }
+                        }
+                        CQ::Balance => q.balance(),
+                        CQ::Len => {
+                            let l = q.len();
+                            // tasks that are inside now or were inside at some moment of the call: an upper bound that holds for
+                            // every linearisation is the number of tasks ever accepted; a lower bound is 0.  The sharp check
+                            // (len == inside) is made at quiescence.
+                            let ever = inside.lock().unwrap().len();
+                            if l > ever {
+                                sched::fail_now(Fail::new("task_lost_or_duplicated", format!("thread {tid}: len() = {l} but only {ever} tasks were ever accepted")).with_class("concurrent"));
+                            }
+                        }
+                    }
+                }
+            }));
+        }
+        let (q_f, log_f, inside_f) = (q.clone(), log.clone(), inside.clone());
+        Scenario {
+            threads,
+            external_threads: 0,
+            identify: None,
+            monitor: None,
+            fingerprint: None,
+            after_spawn: None,
+            finish: Box::new(move |_r| {
+                let mut m = inside_f.lock().unwrap();
+                let still: usize = m.values().filter(|e| e.2 == 0).count();
+                let l = q_f.len();
+                check!(l == still, "task_lost_or_duplicated", "at quiescence len() = {l} but {still} accepted tasks were never handed out");
+                let mut guard = 0;
+                loop {
+                    guard += 1;
+                    if guard > 64 {
+                        return Err(Fail::new("drain_unbounded", "draining the queue does not terminate"));
+                    }
+                    let t = match q_f.pop_local() {
+                        Some(t) => t,
+                        None => match q_f.steal() {
+                            Some(t) => t,
+                            None => break,
+                        },
+                    };
+                    let _ = t.execute();
+                    let id = *log_f.lock().unwrap().last().unwrap();
+                    match m.get_mut(&id) {
+                        Some(e) if e.2 == 0 => e.2 = 1,
+                        _ => return Err(Fail::new("task_returned_twice", format!("drain at quiescence handed out task {id} a second time"))),
+                    }
+                }
+                let lost: Vec<u64> = m.iter().filter(|(_, e)| e.2 == 0).map(|(k, _)| *k).collect();
+                check!(lost.is_empty(), "task_lost", "after draining with pop_local and steal, tasks {:?} never came out", lost);
+                Ok(())
+            }),
+        }
+    }
+}
+
 fn main() {
     zverif::main_with("C18", |reg, tier| {
         let t = |p: u8, s: bool| TaskSpec { priority: p, stealable: s };
@@ -390,6 +552,34 @@ fn main() {
             }
         }
         reg.add(Seq(QueueSpec { cap: 2, dq: 5, dt: 7 }));
+        // the queue itself under the controlled scheduler: owner (push / pop_local / balance), thief (steal), observer (len)
+        {
+            use CQ::*;
+            reg.add(Sched(ConcQueueSpec {
+                name: "WorkStealingQueue[capacity=4] Q1: owner [balance, pop_local] vs thief [steal, steal]",
+                cap: 4,
+                prefill: vec![(0, true), (1, true), (0, true)],
+                threads: vec![vec![Balance, PopLocal], vec![Steal, Steal]],
+                bound_quick: 2,
+                bound_thorough: 4,
+            }));
+            reg.add(Sched(ConcQueueSpec {
+                name: "WorkStealingQueue[capacity=4] Q2: owner [push, balance, pop_local], thief [steal], observer [len, len]",
+                cap: 4,
+                prefill: vec![(0, true), (0, false)],
+                threads: vec![vec![Push(1, true), Balance, PopLocal], vec![Steal], vec![Len, Len]],
+                bound_quick: 2,
+                bound_thorough: 3,
+            }));
+            reg.add(Sched(ConcQueueSpec {
+                name: "WorkStealingQueue[capacity=2] Q3: two pushers at capacity, thief, balance",
+                cap: 2,
+                prefill: vec![(0, true)],
+                threads: vec![vec![Push(0, true), Balance], vec![Push(1, false), PopLocal], vec![Steal, Steal]],
+                bound_quick: 2,
+                bound_thorough: 3,
+            }));
+        }
         reg.add(Seq(QueueSpec { cap: 4, dq: 5, dt: 7 }));
         pipes::register(reg, tier);
     });
